@@ -104,7 +104,7 @@ class RWStub(Module):
         #  tolerates that, and it is not part of this property)
 
 
-def axi_bench(name, rmw=False, base=0, wdepth=4, rdepth=4, dw=32, aw=8, idw=2, sizes=(2,)):
+def axi_bench(name, rmw=False, base=0, wdepth=4, rdepth=4, dw=32, aw=8, idw=2, sizes=(2,), qdepth=QD):
     from litedram.frontend.axi import LiteDRAMAXIPort, LiteDRAMAXI2Native
     ashift = log2_int(dw // 8)
     axi = LiteDRAMAXIPort(data_width=dw, address_width=aw, id_width=idw)
@@ -152,18 +152,18 @@ def axi_bench(name, rmw=False, base=0, wdepth=4, rdepth=4, dw=32, aw=8, idw=2, s
     top.comb += [aw_hs.eq(axi.aw.valid & axi.aw.ready), ar_hs.eq(axi.ar.valid & axi.ar.ready), w_hs.eq(axi.w.valid & axi.w.ready),
                  b_hs.eq(axi.b.valid & axi.b.ready), r_hs.eq(axi.r.valid & axi.r.ready)]
     # W beats follow their AW: queue of accepted AW for the W channel
-    qw = BurstQueue(axi.aw, aw, idw, keep=("len",))                  # for W beats (popped at wlast handshake)
-    qc = BurstQueue(axi.aw, aw, idw, keep=("addr", "len", "burst"))  # for native write commands
-    qb = BurstQueue(axi.aw, aw, idw, keep=("len", "id"))             # for B responses
-    qr = BurstQueue(axi.ar, aw, idw, keep=("addr", "len", "burst"))  # for native read commands
-    qd = BurstQueue(axi.ar, aw, idw, keep=("len", "id"))             # for R beats
+    qw = BurstQueue(axi.aw, aw, idw, depth=qdepth, keep=("len",))                  # for W beats (popped at wlast handshake)
+    qc = BurstQueue(axi.aw, aw, idw, depth=qdepth, keep=("addr", "len", "burst"))  # for native write commands
+    qb = BurstQueue(axi.aw, aw, idw, depth=qdepth, keep=("len", "id"))             # for B responses
+    qr = BurstQueue(axi.ar, aw, idw, depth=qdepth, keep=("addr", "len", "burst"))  # for native read commands
+    qd = BurstQueue(axi.ar, aw, idw, depth=qdepth, keep=("len", "id"))             # for R beats
     top.submodules += qw, qc, qb, qr, qd
     wbeat = Signal(3)
     top.sync += If(w_hs, If(axi.w.last, wbeat.eq(0)).Else(wbeat.eq(wbeat + 1)))
     top.comb += [qw.push.eq(aw_hs), qw.pop.eq(w_hs & axi.w.last)]
     asm("w_data_only_after_its_aw_and_last_on_the_final_beat",
         ~axi.w.valid | (~qw.empty & (axi.w.last == (wbeat == qw.head["len"]))))
-    asm("outstanding_bursts_bounded", ~((axi.aw.valid & (qb.level >= QD - 1)) | (axi.ar.valid & (qd.level >= QD - 1))))
+    asm("outstanding_bursts_bounded", ~((axi.aw.valid & (qb.level >= qdepth - 1)) | (axi.ar.valid & (qd.level >= qdepth - 1))))
     # native commands vs beat-address oracle -------------------------------------------------------------
     nacc_w = Signal()
     nacc_r = Signal()
@@ -393,6 +393,7 @@ BYTES_CONFIGS = {
 CONFIGS = {
     "axi_d2_base64": (dict(wdepth=2, rdepth=2, base=64), 14, 20, "qt"),
     "axi_rmw_base64": (dict(rmw=True, base=64), 14, 20, "qt"),
+    "axi_d2_out4": (dict(wdepth=2, rdepth=2, qdepth=5), 16, 22, "qt"),
     "axi_d4": (dict(), 0, 22, "t"),
     "axi_d16": (dict(wdepth=16, rdepth=16), 0, 20, "t"),
     "axi_rmw_d2": (dict(rmw=True, wdepth=2, rdepth=2), 0, 20, "t"),
